@@ -293,8 +293,15 @@ where
     }
 
     /// Adds a new node with the given weight, returning the corresponding node index.
+    ///
+    /// **Panics** if the `Csr` is at the maximum number of nodes for its index type.
+    #[track_caller]
     pub fn add_node(&mut self, weight: N) -> NodeIndex<Ix> {
         let i = self.row.len() - 1;
+        assert!(
+            i <= <Ix as IndexType>::max().index(),
+            "Csr::add_node: node index {i} does not fit the index type"
+        );
         self.row.insert(i, self.column.len());
         self.node_weights.insert(i, weight);
         Ix::new(i)
